@@ -181,6 +181,8 @@ pub struct Rig {
     pub uniq: u64,
     pub rng: StdRng,
     pub all_slots: bool,
+    /// also record the installed epochs of reachable FREE proxies (control-plane runs: they are synced too)
+    pub check_free: bool,
 }
 
 impl Rig {
@@ -214,6 +216,16 @@ impl Rig {
         let svc_proxies = obs["svc"]["proxies"].clone();
         let down: Vec<String> = self.w.net.inner.down.lock().iter().cloned().collect();
         self.emit(json!({"kind": "state", "phase": phase, "S": s, "clusters": svc_clusters, "proxies": svc_proxies, "down": down}));
+        if self.check_free {
+            let mut epochs = vec![];
+            for pv in svc_proxies.as_array().cloned().unwrap_or_default() {
+                let a = pv["addr"].as_str().unwrap_or("").to_string();
+                if pv["cluster"].as_str().unwrap_or("").is_empty() && !down.contains(&a) && self.w.net.inner.proxies.lock().contains_key(&a) {
+                    epochs.push(json!({"proxy": a, "epoch": self.w.proxy_epoch(&a).await}));
+                }
+            }
+            self.emit(json!({"kind": "epochs", "phase": phase, "cluster": "", "epochs": epochs}));
+        }
         let clusters = svc_clusters.as_array().cloned().unwrap_or_default();
         for cv in clusters {
             let cname = cv["name"].as_str().unwrap_or("").to_string();
@@ -349,7 +361,7 @@ pub async fn run_one(cfg: &RouteCfg) -> Vec<Value> {
         Err(e) => return vec![json!({"kind": "harness_error", "e": e})],
     };
     w.net.inner.log_redis.store(true, std::sync::atomic::Ordering::SeqCst);
-    let mut rig = Rig { w, keys: keys_for_all_slots(), out: vec![], uniq: 0, rng: StdRng::seed_from_u64(cfg.seed), all_slots: cfg.all_slots };
+    let mut rig = Rig { w, keys: keys_for_all_slots(), out: vec![], uniq: 0, rng: StdRng::seed_from_u64(cfg.seed), all_slots: cfg.all_slots, check_free: false };
     rig.emit(json!({"kind": "reset", "seed": cfg.seed, "compress": cfg.compress, "limit": cfg.limit, "v1": cfg.v1, "conn_num": cfg.conn_num, "all_slots": cfg.all_slots}));
     // layout
     let nh = rig.rng.gen_range(3..=4);
